@@ -23,7 +23,7 @@ class C32(Spec):
     impl_jobs = 8
     rule = ('flat groups: every digraph on 2 and 3 components x every declared order (exhaustive); random flat '
             'groups of 4-8 components and random hierarchies (depth <= 3, plain groups and ParallelGroups with nested '
-            'auto_order groups) with subsystems added in random order, a quarter of the cases set up twice, '
+            'auto_order groups) with subsystems added in random order, a quarter of the cases set up twice (part of them adding connections in between), '
             'acyclic by construction or with back edges, auto_order on (and mixed flags); a case is non-trivial '
             'when it is a distinct model (graph, declared order, coefficients)')
     assumptions = ['networkx strongly_connected_components is not modelled: its output on every generated graph '
@@ -146,7 +146,21 @@ class C32(Spec):
         case['cls'] = self.classify(case)
         return case
 
+    def add_late(self, case, rng):
+        """half of the two-round cases add some of their connections only after the first round"""
+        if case.get('resetup') and rng.random() < 0.6:
+            conns = [[c['id'], k] for c in case['comps'] for k in range(len(c['terms']))]
+            late = [x for x in conns if rng.random() < 0.5]
+            if late:
+                case['late'] = late
+                case['kind'] += '-late'
+        return case
+
     def gen(self, tier, rng):
+        cases = self.gen0(tier, rng)
+        return [self.add_late(c, rng) for c in cases]
+
+    def gen0(self, tier, rng):
         cases = []
         # exhaustive: all digraphs on 2 and 3 components x all declared orders
         for n in (2, 3):
